@@ -119,11 +119,14 @@ def findThrowable (name : String) : Nat :=
 /-- `RuntimeError::throwable(no) > 0`. -/
 def isThrowable (code : Nat) : Bool := Gen.throwables.any (·.1 == code)
 
+/-- The bytes of an (ASCII) exception name: identifiers are ASCII, so one byte per character. -/
+def nameBytes (s : String) : Bytes := s.toList.map fun c => UInt8.ofNat c.toNat
+
 /-- `BEGINStatement::docatch` matching rule for one `when NAME` clause. -/
 def catchMatches (clause : String) (code : Nat) (arg : Bytes) : Bool :=
   let ec := findThrowable clause
   (clause == "OTHERS" && (code == Gen.EXC_RT_USER_S || isThrowable code)) ||
-  (ec == code && (ec != Gen.EXC_RT_USER_S || clause.toUTF8.toList == arg))
+  (ec == code && (ec != Gen.EXC_RT_USER_S || nameBytes clause == arg))
 
 /-- Rendering of one value by `print` (statement_print.cpp). -/
 def printVal (v : Val) : Res Bytes :=
@@ -138,6 +141,23 @@ def printVal (v : Val) : Res Bytes :=
   else .unmodelled
 
 def UPPER (s : String) : String := s.toUpper
+
+/-- The context a call runs in (`createEnv`): every symbol of the function as a typed null,
+parameters bound to the argument values; it shares only the output stream and the work budget
+with the caller. -/
+def calleeInit (f : Func) (vals : List Val) (caller : St) : St :=
+  { vars := ((f.params.map (·.1)).zip vals).foldl (fun vs (n, v) => setVar vs n v) (f.decls.map fun (n, t) => (n, Val.null t)),
+    returned := none, out := caller.out, budget := caller.budget }
+
+/-- Back in the caller (`FunctorExpression::value` after `body->doit`): the value saved by `return`
+(or an untyped null), the caller's own variables untouched, output and budget carried over. -/
+def finishCall (caller : St) (r : Res Flow × St) : Res Val × St :=
+  let back : St := { caller with out := r.2.out, budget := r.2.budget }
+  match r.1 with
+  | .ok _ => (.ok (r.2.returned.getD (.null Ty.none)), back)
+  | .err c a => (.err c a, back)
+  | .haz h => (.haz h, back)
+  | .unmodelled => (.unmodelled, back)
 
 /-- One unit of the total work budget (see `St.budget`); at zero the run is cut off as `oof`. -/
 def tick : EvalM Unit := fun s => if s.budget == 0 then oof s else (.ok (), { s with budget := s.budget - 1 })
@@ -225,18 +245,7 @@ mutual
         if depth == Gen.RECURSION_LIMIT then failE Gen.EXC_RT_RECURSION_LIMIT else do
         -- parameters: evaluated in the caller, in order, stored by copy into the fresh callee context
         let vals ← evalArgs funcs depth fuel args
-        let caller ← getSt
-        let init : List (String × Val) := f.decls.map fun (n, t) => (n, Val.null t)
-        let bound := (f.params.map (·.1)).zip vals |>.foldl (fun vs (n, v) => setVar vs n v) init
-        let callee : St := { vars := bound, returned := none, out := caller.out, budget := caller.budget }
-        fun _ =>
-          let (r, callee') := execBlock funcs (depth + 1) fuel f.body f.catches callee
-          let back : St := { caller with out := callee'.out, budget := callee'.budget }
-          match r with
-          | .ok _ => (.ok (callee'.returned.getD (.null Ty.none)), back)
-          | .err c a => (.err c a, back)
-          | .haz h => (.haz h, back)
-          | .unmodelled => (.unmodelled, back)
+        fun caller => finishCall caller (execBlock funcs (depth + 1) fuel f.body f.catches (calleeInit f vals caller))
 
   def evalArgs (funcs : List Func) (depth : Nat) : Nat → List Expr → EvalM (List Val)
     | 0, _ => oof
@@ -314,7 +323,7 @@ mutual
       | .beginS body catches => execBlock funcs depth fuel body catches
       | .raiseS name =>
         let code := findThrowable name
-        if code == Gen.EXC_RT_USER_S then failE code name.toUTF8.toList else failE code
+        if code == Gen.EXC_RT_USER_S then failE code (nameBytes name) else failE code
       | .returnS none => pure .ret
       | .returnS (some e) => do
         let v ← eval funcs depth fuel e
